@@ -18,6 +18,8 @@ EXTENDS Integers, Sequences, FiniteSets, TLC, Json, IOUtils, SequencesExt
 
 UpEncs == {"", "gzip", "br", "lz4", "zst", "snz"}
 Accepts == {"", "gzip", "br", "gzip, deflate, br", "deflate", "gzip, deflate"}
+(* lists whose codings carry (non-zero) weights: the client accepts what it lists; only for the default server setting *)
+QAccepts == {"gzip;q=0.8, deflate;q=0.5", "br;q=0.9, gzip;q=0.5", "deflate, br;q=0.3"}
 Sizes == {"zero", "tiny", "below", "at", "above", "large"}     \* against the min compress length
 Ratios == {"normal", "incompressible", "high", "extreme"}       \* high: compresses more than 10x; extreme: more than
                                                                 \* 200x (200 kB of one byte: beyond every buffer guess but the maximal ratio)
@@ -31,8 +33,8 @@ CTypes == {"text/plain; charset=utf-8", "image/png", "application/json"}
 Settings == {"default", "min100", "filterplain", "min100u", "fast", "lvl10", "cfgjson", "cfgdefault", "filteru0"}
 Paths == {"first", "hit", "restore", "pass", "post"}
 
-AccBr(a) == a \in {"br", "gzip, deflate, br"}
-AccGz(a) == a \in {"gzip", "gzip, deflate, br", "gzip, deflate"}
+AccBr(a) == a \in {"br", "gzip, deflate, br", "br;q=0.9, gzip;q=0.5", "deflate, br;q=0.3"}
+AccGz(a) == a \in {"gzip", "gzip, deflate, br", "gzip, deflate", "gzip;q=0.8, deflate;q=0.5", "br;q=0.9, gzip;q=0.5"}
 
 TypeMatches(c) ==
   IF c.setting = "filterplain" THEN c.ctype = "text/plain; charset=utf-8"    \* filter `plain`
@@ -104,6 +106,12 @@ Cells ==
     cacheable |-> kp[1], path |-> kp[2], status |-> x.status, members |-> x.members] :
      u \in UpEncs, a \in Accepts, kp \in KP, x \in GoodShapes}
 
+QCells ==
+  {[upenc |-> u, accept |-> a, size |-> x.size, ratio |-> x.ratio, ctype |-> x.ctype, setting |-> x.setting,
+    cacheable |-> kp[1], path |-> kp[2], status |-> x.status, members |-> x.members] :
+     u \in UpEncs, a \in QAccepts, kp \in KP,
+     x \in {y \in GoodShapes : y.setting = "default" /\ y.status = 200 /\ y.members = 1 /\ y.ratio = "normal"}}
+
 Relevant(c) == c.members = 2 => c.upenc = "gzip"
 
 (* one more case, of another kind: a server is reconfigured back and forth between {min length 10, filter json} and
@@ -120,7 +128,7 @@ VARIABLE l
 
 EmitInit ==
   /\ l = 0
-  /\ LET Q == SetToSeq({c \in Cells : Relevant(c)})
+  /\ LET Q == SetToSeq({c \in Cells \cup QCells : Relevant(c)})
      IN ndJsonSerialize(IOEnv.OUT, [i \in 1..Len(Q) |-> Q[i] @@ [expected |-> SetToSeq(Expected(Q[i]))]] \o <<StormCase, CutCase>>)
 EmitNext == FALSE /\ l' = l
 
@@ -160,6 +168,9 @@ OkC13(o) ==
   /\ (Cacheable(c) /\ comp = {TRUE} /\ c.size # "zero") =>
         /\ \A i \in DOMAIN o.storeOps : Best(o.storeOps[i])
         /\ Len(o.storeOps) = (IF EffUp(c) \in {"gzip", "br"} THEN 1 ELSE 2)
+  (* ... and the stored gzip variant really is what the best-compression level makes of the body (its length is compared with
+     the reference encoder's at the highest level) *)
+  /\ ("gzBest" \in DOMAIN o) => o.gzBest
 
 Ok(o) == IF "storm" \in DOMAIN o.case THEN (o.asked > 0 /\ o.compressed = 0)
          ELSE IF "cut" \in DOMAIN o.case THEN /\ (o.firstComplete => o.firstFull)
